@@ -41,6 +41,14 @@ func G4[A, B any](a A, b B) (B, A) { return b, a }
 func G5[X, Y any](x X, y Y) (Y, X) { return y, x }
 func G6[T C1](x T) T { return x }
 func G7[U C2](x U) U { return x }
+func G8[T any, S interface{ ~[]T }](s S) T { var z T; return z }
+func G9[E any, L interface{ ~[]E }](l L) E { var z E; return z }
+func G10[K comparable, M interface{ ~map[K]V }, V any](m M) (K, V) { var k K; var v V; return k, v }
+func G11[A comparable, B interface{ ~map[A]C }, C any](m B) (A, C) { var k A; var v C; return k, v }
+func G12[T interface{ Less(T) bool }](a, b T) bool { return a.Less(b) }
+func G13[U interface{ Less(U) bool }](a, b U) bool { return a.Less(b) }
+func G14[P interface{ *Q }, Q any](p P) Q { var z Q; return z }
+func G15[X interface{ *Y }, Y any](p X) Y { var z Y; return z }
 
 type A1 = []int
 type A2 = map[string][]int
